@@ -492,7 +492,11 @@ theorem node_un (fuel : Nat) (op : Un) (s : ASig α) :
 theorem node_bin (fuel : Nat) (op : Bin) (l r : ASig α) (h : l.length + r.length + 4 ≤ fuel) :
     (∀ c, op ≠ .predSat c) →
     (match op with
-     | .predSat _ | .predZero => .error .other
+     | .predSat c =>
+         match Gen.Dense.iaMethods.lookup "visitPredicate_outRob" with
+         | some m => callD fuel m [l, r] none [("$operator", .cmp c), ("$out_vars", .list [])]
+         | none => .error .type
+     | .predZero => .error .other
      | _ =>
        match lookupD op.kind with
        | some m => callD fuel m [l, r] none (match op with | .pred c => [("$operator", .cmp c)] | _ => [])
